@@ -215,6 +215,8 @@ class Unit:
         self.state_machine = False
         self.entry_for = set()
         self.canary = None
+        self.assumed = []
+        self.env = []
 
     # ---- L4
     def reduce_attrs(self):
@@ -287,6 +289,122 @@ class Unit:
                 t[i:i + 4] = ['|', '_vlex_u', ':', '(', ')', '|']; n += 1
             i += 1
         if n: self.rewrites.append('L8 %d closures `|()| E` written `|_vlex_u: ()| E`' % n)
+
+    # ---- L9
+    def eta_expand_constructors(self):
+        """`CallbackRetVal::<'s, T, D>::construct(cb_result, D::V)` -> `.. construct(cb_result, |_vlex_v: T| D::V(_vlex_v))`
+        (Verus: "using a datatype constructor as a function value" unsupported); eta-expansion, same function"""
+        t = self.toks; n = 0; i = 0
+        while True:
+            i = find_seq(t, ['CallbackRetVal', '::', '<'], i)
+            if i < 0: break
+            # generic args up to the matching '>'
+            j = i + 3; d = 1; args = [[]]
+            while d > 0:
+                x = t[j]
+                if x == '<': d += 1
+                elif x == '>': d -= 1
+                elif x == '>>': d -= 2
+                if d <= 0: break
+                if x == ',' and d == 1: args.append([])
+                else: args[-1].append(x)
+                j += 1
+            k = find_seq(t, ['construct', '(', 'cb_result', ','], j, j + 8)
+            if k >= 0 and len(args) >= 3:
+                a = k + 4
+                ce = match(t, k + 1)
+                arg = t[a:ce]
+                if len(arg) == 3 and arg[1] == '::' and arg[0][0].isupper() and '|' not in arg:
+                    t[a:ce] = ['|', '_vlex_v', ':'] + args[1] + ['|'] + arg + ['(', '_vlex_v', ')']; n += 1
+            i = j
+        if n: self.rewrites.append('L9 %d variant constructors passed as functions eta-expanded (`D::V` -> `|v: T| D::V(v)`)' % n)
+
+    # ---- user callbacks and user types (corpus code, not repository code): assumed contracts
+    CB_REQ = [WF.format(x='old(lex)'), 'old(lex).token_start < old(lex).token_end']
+    CB_ENS = [WF.format(x='final(lex)'),
+              'final(lex).source == old(lex).source && final(lex).is_prefix == old(lex).is_prefix',
+              'final(lex).token_start == old(lex).token_start',
+              'old(lex).token_end <= final(lex).token_end']
+
+    def user_environment(self, sources):
+        """label callbacks `let cb_result = NAME(lex);` and the user types named by `type Extras` / `type Error`:
+        - every callback NAME gets an external_body stub whose signature is copied from the corpus file and whose contract is the
+          ASSUMED callback contract (wf preserved, source/is_prefix/token_start unchanged, token_end may only grow - what any
+          callback written against the public Lexer API satisfies by the V-src contracts of bump/extras access);
+        - the user types are copied from the corpus (derives reduced), `Default` for the error type is an external_body impl,
+          `impl From<..> for <Error>` items are copied."""
+        t = self.toks
+        names = []
+        i = 0
+        while True:
+            i = find_seq(t, ['let', 'cb_result', '='], i)
+            if i < 0: break
+            j = i + 3; path = []
+            while t[j] != '(' and t[j] != '{': path.append(t[j]); j += 1
+            if t[j] == '(' and t[j + 1] == 'lex' and t[j + 2] == ')' and path:
+                if path != ['logos', '::', 'skip'] and path != ['::', 'logos', '::', 'skip']:
+                    if len(path) != 1: raise LexGenError('callback path %s: only plain function names are supported' % ' '.join(path))
+                    if path[0] not in names: names.append(path[0])
+            i = j
+        err_cb = None
+        k = find_seq(t, ['let', 'error', '='])
+        if k >= 0 and t[k + 4] == '(' and t[k + 5] == 'lex':
+            err_cb = t[k + 3]
+            if err_cb not in names: names.append(err_cb)
+        self_ty = self.enum_name()
+        out = []
+        allsrc = '\n'.join(sources)
+        # user types
+        for assoc in ('Extras', 'Error'):
+            k = find_seq(t, ['type', assoc, '='])
+            if k < 0: continue
+            e = t.index(';', k)
+            ty = t[k + 3:e]
+            if ty == ['(', ')'] or len(ty) != 1 or ty[0] in ('u8', 'u16', 'u32', 'u64', 'usize', 'bool'): continue
+            name = ty[0]
+            m = re.search(r'pub (struct|enum) %s\b' % re.escape(name), allsrc)
+            if not m: raise LexGenError('user type %s not found in the corpus sources' % name)
+            ob = allsrc.index('{', m.end()); d = 0; e2 = ob
+            while True:
+                if allsrc[e2] == '{': d += 1
+                elif allsrc[e2] == '}':
+                    d -= 1
+                    if d == 0: break
+                e2 += 1
+            item = re.sub(r'#\[default\]\s*', '', allsrc[m.start():e2 + 1])
+            out += ['#', '[', 'derive', '(', 'Clone', ')', ']'] + tokenize(item) + ['\n']
+            self.rewrites.append('env: user type %s copied from the corpus (derive reduced to Clone)' % name)
+            if assoc == 'Error':
+                out += tokenize('impl ::core::default::Default for %s { #[verifier::external_body] fn default() -> Self { unimplemented!() } }' % name) + ['\n']
+                for fm in re.finditer(r'impl From<(\w+)> for %s \{' % re.escape(name), allsrc):
+                    ob = fm.end() - 1; d = 0; e3 = ob
+                    while True:
+                        if allsrc[e3] == '{': d += 1
+                        elif allsrc[e3] == '}':
+                            d -= 1
+                            if d == 0: break
+                        e3 += 1
+                    out += tokenize(allsrc[fm.start():e3 + 1].replace('fn from', '#[verifier::external_body] fn from', 1)) + ['\n']
+                    self.rewrites.append('env: `impl From<%s> for %s` copied from the corpus, body external (vstd attaches its own spec to From::from)' % (fm.group(1), name))
+        # callbacks
+        for nm in names:
+            m = re.search(r'fn %s\s*(<[^>]*>)?\s*\(\s*\w+\s*:\s*&mut\s+Lexer<[^)]*\)\s*(->\s*([^{]+?))?\s*\{' % re.escape(nm), allsrc)
+            if not m: raise LexGenError('callback %s not found in the corpus sources' % nm)
+            ret = (m.group(3) or '()').strip()
+            key = '%s::callback[%s]' % (self.name, nm)
+            hdr = tokenize("#[verifier::external_body] fn %s<'s>(lex: &mut ::logos::Lexer<'s, %s>) -> (r: %s)" % (nm, self_ty, ret))
+            req = list(self.CB_REQ) if nm != err_cb else [WF.format(x='old(lex)')]
+            ens = list(self.CB_ENS) if nm != err_cb else [WF.format(x='final(lex)'), self.CB_ENS[1], 'final(lex).token_start == old(lex).token_start && final(lex).token_end == old(lex).token_end']
+            body = ['\n', 'requires', '\n'] + sum(([r_ + ',', '\n'] for r_ in req), []) + ['ensures', '\n'] + sum(([e_ + ',', '\n'] for e_ in ens), [])
+            out += hdr + body + tokenize('{ unimplemented!() }') + ['\n']
+            self.assumed.append('user callback %s: assumed contract (wf preserved; source, is_prefix, token_start unchanged; token_end may only grow)' % nm)
+        self.env = out
+
+    def enum_name(self):
+        t = self.toks
+        k = find_seq(t, ['impl'])
+        while t[k] != 'for': k += 1
+        return t[k + 1]
 
     # ---- L2
     def labelled_blocks(self):
@@ -454,7 +572,7 @@ class Unit:
         t[i_fn:i_fn] = ['#', '[', 'verifier', '::', 'external_body', ']']
         cb_impl = match(t, ob_impl)
         t[cb_impl + 1:cb_impl + 1] = ['\n'] + free
-        self.fns[key] = dict(kind='lex')
+        self.fns[key] = dict(kind='lex_body')
         self.rewrites.append('L7 the body of `impl Logos for %s`::lex moved, untouched, into a free function `lex_body` carrying the trait-level '
                              'contract LEX; the impl method itself is external_body (Verus rejects the impl calling functions that '
                              'depend on the impl as a definition cycle)' % self_ty[0])
@@ -844,7 +962,7 @@ class Unit:
     def _hdr_depth(self, fn_stack):
         return self._paren
 
-def transform(name, raw, lex_req, lex_ens, bytes_view=False, canary=None):
+def transform(name, raw, lex_req, lex_ens, bytes_view=False, canary=None, sources=()):
     u = Unit(name, raw, bytes_view=bytes_view)
     u.canary = canary
     u.reduce_attrs()
@@ -852,6 +970,8 @@ def transform(name, raw, lex_req, lex_ens, bytes_view=False, canary=None):
     u.expand_macros()
     u.labelled_blocks()
     u.unit_closure_params()
+    u.eta_expand_constructors()
+    u.user_environment(sources)
     u.make_bytes_view()
     u.hoist_enums()
     u.rename_arm_items()
@@ -866,5 +986,6 @@ def transform(name, raw, lex_req, lex_ens, bytes_view=False, canary=None):
     # hoisted enums go in front
     pre = []
     for item in u.hoisted: pre += item + ['\n']
+    pre += u.env
     u.toks = pre + u.toks
     return u
